@@ -1,5 +1,190 @@
-import Solvor.Assign.Model
-/-! Assign: property theorems only (helper lemmas live in Lemmas.lean). -/
+import Solvor.Assign.Bridge
+/-!
+Assign: the property theorems of C10 (helper lemmas are in `Lemmas.lean`, `Bridge.lean`,
+the specification vocabulary in `Spec.lean`, the mirror and the checker in `Model.lean`).
+
+Vocabulary.  A *matching* of `r` rows to `k` columns is `m : Fin r → Option (Fin k)` with no
+column used twice (`IsMatching`), `msize m` the number of assigned rows, `mcost c m` the sum of
+the chosen entries.  On the list side `ValidAsg r k asg` says that the Python `assignment` list
+`asg` is such a matching of size `min r k` (one entry per row, `-1` = unassigned, no column
+twice), `objOf m asg` is the sum of the chosen entries of the cost matrix `m`.
+-/
 namespace Solvor.Assign
+open Finset
+
+variable {r k n : ℕ}
+
+/-- **potentials_cert** (T-spec).  Potentials with `u i + v j ≤ a i j` everywhere and equality on
+the cells of a perfect matching `σ` of the square prove that `σ` has minimum total cost over
+all permutations. -/
+theorem potentials_cert (a : Fin n → Fin n → ℚ) (u v : Fin n → ℚ) (σ : Equiv.Perm (Fin n))
+    (hfeas : ∀ i j, u i + v j ≤ a i j) (htight : ∀ i, u i + v (σ i) = a i (σ i)) :
+    ∀ τ : Equiv.Perm (Fin n), ∑ i, a i (σ i) ≤ ∑ i, a i (τ i) := by
+  intro τ
+  have h1 : ∑ i, a i (σ i) = ∑ i, u i + ∑ j, v j := by
+    rw [← Equiv.sum_comp σ v, ← Finset.sum_add_distrib]
+    exact Finset.sum_congr rfl fun i _ => (htight i).symm
+  rw [h1]
+  exact dual_bound a u v hfeas τ
+
+/-- non-vacuity: a 2×2 instance with non-trivial potentials meeting the hypotheses -/
+example : ∃ (a : Fin 2 → Fin 2 → ℚ) (u v : Fin 2 → ℚ) (σ : Equiv.Perm (Fin 2)),
+    (∀ i j, u i + v j ≤ a i j) ∧ (∀ i, u i + v (σ i) = a i (σ i)) ∧ σ 0 = 1 :=
+  ⟨fun i j => if i = j then 5 else 2, fun _ => 1, fun _ => 1, Equiv.swap 0 1,
+    by intro i j; fin_cases i <;> fin_cases j <;> norm_num,
+    by intro i; fin_cases i <;> norm_num, by simp⟩
+
+/-- **padding_sound** (T-spec).  For the zero-padded `max r k` square of an `r × k` cost matrix:
+(1) the real cells of any permutation form a matching of size `min r k` of the same total cost;
+(2) every matching of size `min r k` is the real part of some permutation of the same total cost
+— so the optimum over permutations of the padded square is the optimum over matchings of size
+`min r k`; (3) at that size, the cost under `mx - c` is `min r k * mx` minus the cost under `c`,
+so minimising the transformed matrix maximises the original one. -/
+theorem padding_sound (c : Fin r → Fin k → ℚ) :
+    (∀ σ : Equiv.Perm (Fin (max r k)), ∃ m : Fin r → Option (Fin k),
+        IsMatching m ∧ msize m = min r k ∧ mcost c m = ∑ i, pad (max r k) c i (σ i)) ∧
+    (∀ m : Fin r → Option (Fin k), IsMatching m → msize m = min r k →
+        ∃ σ : Equiv.Perm (Fin (max r k)), ∑ i, pad (max r k) c i (σ i) = mcost c m) ∧
+    (∀ (mx : ℚ) (m : Fin r → Option (Fin k)), msize m = min r k →
+        mcost (fun i j => mx - c i j) m = (min r k : ℕ) * mx - mcost c m) := by
+  refine ⟨fun σ => ⟨restrict (le_max_left r k) σ, restrict_isMatching _ σ, msize_restrict rfl _ σ,
+    mcost_restrict _ c σ⟩, ?_, ?_⟩
+  · intro m hm hsz
+    obtain ⟨σ, hσ⟩ := matching_extend (le_max_left r k) (le_max_right r k) m hm
+    have : m = restrict (le_max_left r k) σ :=
+      matching_eq_of_le hσ (by rw [msize_restrict rfl, hsz])
+    refine ⟨σ, ?_⟩
+    rw [this]
+    exact (mcost_restrict _ c σ).symm
+  · intro mx m hsz
+    rw [mcost_compl, hsz]
+
+/-- consequence used by the algorithm: an optimal permutation of the padded square restricts to a
+minimum-cost matching of size `min r k` … -/
+theorem padding_optimum (c : Fin r → Fin k → ℚ) (σ : Equiv.Perm (Fin (max r k)))
+    (hσ : ∀ τ : Equiv.Perm (Fin (max r k)), ∑ i, pad (max r k) c i (σ i) ≤ ∑ i, pad (max r k) c i (τ i)) :
+    IsMatching (restrict (k := k) (le_max_left r k) σ) ∧
+    msize (restrict (k := k) (le_max_left r k) σ) = min r k ∧
+    ∀ m' : Fin r → Option (Fin k), IsMatching m' → msize m' = min r k →
+      mcost c (restrict (le_max_left r k) σ) ≤ mcost c m' := by
+  refine ⟨restrict_isMatching _ σ, msize_restrict rfl _ σ, fun m' hm' hsz => ?_⟩
+  obtain ⟨τ, hτ⟩ := (padding_sound c).2.1 m' hm' hsz
+  rw [mcost_restrict, ← hτ]
+  exact hσ τ
+
+/-- … and, run on `mx - c`, to a maximum-cost matching of size `min r k` (`minimize=False`). -/
+theorem padding_optimum_max (c : Fin r → Fin k → ℚ) (mx : ℚ) (σ : Equiv.Perm (Fin (max r k)))
+    (hσ : ∀ τ : Equiv.Perm (Fin (max r k)),
+      ∑ i, pad (max r k) (fun i j => mx - c i j) i (σ i) ≤ ∑ i, pad (max r k) (fun i j => mx - c i j) i (τ i)) :
+    ∀ m' : Fin r → Option (Fin k), IsMatching m' → msize m' = min r k →
+      mcost c m' ≤ mcost c (restrict (le_max_left r k) σ) := by
+  intro m' hm' hsz
+  have h := (padding_optimum (fun i j => mx - c i j) σ hσ).2.2 m' hm' hsz
+  rw [mcost_compl, mcost_compl, hsz, msize_restrict rfl] at h
+  linarith
+
+/-- non-vacuity of `padding_sound`/`padding_optimum`: a 2×3 matrix with a negative entry; the
+matching `0 ↦ 2, 1 ↦ 0` has size `min 2 3` -/
+example : ∃ (c : Fin 2 → Fin 3 → ℚ) (m : Fin 2 → Option (Fin 3)),
+    IsMatching m ∧ msize m = min 2 3 ∧ mcost c m = -3 :=
+  ⟨fun i j => (i.val : ℚ) - 2 * j.val, fun i => if i = 0 then some 2 else some 0, by
+    unfold IsMatching; decide, by unfold msize; decide, by
+    simp [mcost, Fin.sum_univ_two]; norm_num⟩
+
+/-! ### the verified checker -/
+
+/-- **chkAssignment_sound** (T-spec; the checker the driver evaluates on the implementation's
+assignment with the mirror's potentials).  If `chkAssignment` accepts, then `asg` is a matching of
+size `min rows cols` (no column twice, `-1` for unassigned rows) and the sum of its chosen entries
+is the minimum (`minimize`) / maximum (otherwise) over *all* matchings of that size. -/
+theorem chkAssignment_sound (m : Mat) (mn : Bool) (mx : ℚ) (asg : List Int) (u v : List ℚ)
+    (h : chkAssignment m mn mx asg u v = true) :
+    ValidAsg (nRows m) (nCols m) asg ∧
+    ∀ m' : Fin (nRows m) → Option (Fin (nCols m)), IsMatching m' →
+      msize m' = min (nRows m) (nCols m) →
+      if mn = true then objOf m asg ≤ mcost (cF _ _ (cell m)) m'
+      else mcost (cF _ _ (cell m)) m' ≤ objOf m asg := by
+  unfold chkAssignment at h
+  simp only [Bool.and_eq_true, beq_iff_eq] at h
+  obtain ⟨⟨⟨⟨hv, hu⟩, hvl⟩, hfeas⟩, hobj⟩ := h
+  have hV : ValidAsg (nRows m) (nCols m) asg := (validAsgB_iff _ _ _).1 hv
+  refine ⟨hV, fun m' hm' hsz => ?_⟩
+  -- potentials as functions on `Fin n`
+  let U : Fin (max (nRows m) (nCols m)) → ℚ := fun i => u.getD i 0
+  let V : Fin (max (nRows m) (nCols m)) → ℚ := fun j => v.getD j 0
+  have hfeas' : ∀ i j, U i + V j ≤
+      pad (max (nRows m) (nCols m)) (cF (nRows m) (nCols m) (padded m mn mx)) i j := by
+    intro i j
+    unfold dualFeasB at hfeas
+    simp only [List.all_eq_true, List.mem_range, decide_eq_true_eq] at hfeas
+    rw [← padded_eq_pad]
+    exact hfeas i i.2 j j.2
+  have hcost : mcost (cF (nRows m) (nCols m) (padded m mn mx)) (toM _ _ asg) = ∑ i, U i + ∑ j, V j := by
+    rw [toM_mcost hV.rng, ← sum_getD u _ hu, ← sum_getD v _ hvl, ← hobj]
+    rfl
+  have hobjOf : objOf m asg = mcost (cF (nRows m) (nCols m) (cell m)) (toM (nRows m) (nCols m) asg) := by
+    rw [toM_mcost hV.rng]; rfl
+  have key := assignment_optimal rfl (cF (nRows m) (nCols m) (padded m mn mx)) U V hfeas'
+    (toM _ _ asg) hcost m' hm' hsz
+  cases mn with
+  | true =>
+    simp only [if_true]
+    rw [hobjOf]
+    rw [cF_padded_min] at key
+    exact key
+  | false =>
+    simp only [Bool.false_eq_true, if_false]
+    rw [hobjOf]
+    rw [cF_padded_max, mcost_compl, mcost_compl, hsz, toM_msize hV] at key
+    linarith
+
+/-- list form: no valid `assignment` list does better -/
+theorem chkAssignment_optimal (m : Mat) (mn : Bool) (mx : ℚ) (asg : List Int) (u v : List ℚ)
+    (h : chkAssignment m mn mx asg u v = true) (asg' : List Int)
+    (h' : ValidAsg (nRows m) (nCols m) asg') :
+    if mn = true then objOf m asg ≤ objOf m asg' else objOf m asg' ≤ objOf m asg := by
+  have := (chkAssignment_sound m mn mx asg u v h).2 (toM _ _ asg') (toM_isMatching h') (toM_msize h')
+  have e : objOf m asg' = mcost (cF (nRows m) (nCols m) (cell m)) (toM (nRows m) (nCols m) asg') := by
+    rw [toM_mcost h'.rng]; rfl
+  rw [e]; exact this
+
+/-- the list encoding loses nothing: every matching of size `min r k` is a valid assignment list -/
+theorem validAsg_ofM (m : Fin r → Option (Fin k)) (hm : IsMatching m) (hsz : msize m = min r k) :
+    ValidAsg r k (ofM m) ∧ toM r k (ofM m) = m := by
+  refine ⟨⟨by simp [ofM], ?_, ?_, ?_⟩, toM_ofM m⟩
+  · intro i hi
+    rw [ofM_getD m ⟨i, hi⟩]
+    cases m ⟨i, hi⟩ with
+    | none => left; rfl
+    | some j => right; simp only [Option.elim_some]; have := j.2; omega
+  · intro i hi j hj hne heq
+    rw [ofM_getD m ⟨i, hi⟩] at hne heq
+    rw [ofM_getD m ⟨j, hj⟩] at heq
+    cases hmi : m ⟨i, hi⟩ with
+    | none => rw [hmi] at hne; exact absurd rfl hne
+    | some a =>
+      cases hmj : m ⟨j, hj⟩ with
+      | none => rw [hmi, hmj] at heq; simp only [Option.elim_some, Option.elim_none] at heq; omega
+      | some b =>
+        rw [hmi, hmj] at heq
+        simp only [Option.elim_some] at heq
+        have hab : a = b := Fin.ext (by omega)
+        subst hab
+        simpa using congrArg Fin.val (hm _ _ _ hmi hmj)
+  · rw [← hsz, length_filter_range]
+    unfold msize
+    congr 1
+    ext i
+    simp only [mem_filter, mem_univ, true_and]
+    rw [ofM_getD m i]
+    cases m i with
+    | none => simp
+    | some j => simp
+
+/-- non-vacuity of `chkAssignment_sound`: the docstring example of `solve_hungarian`, with the
+potentials the mirror computes, is accepted (so is the maximisation of a 2×3 matrix) -/
+example : chkAssignment [[10, 5, 13], [3, 9, 18], [10, 6, 12]] true 18 [1, 0, 2] [11, 5, 12] [-2, -6, 0] = true := by
+  decide +kernel
+example : (hungarian [[10, 5, 13], [3, 9, 18], [10, 6, 12]] true).asg = [1, 0, 2] := by decide +kernel
 
 end Solvor.Assign
